@@ -4,7 +4,7 @@ import vlib, gen, impl, findings
 
 VERSIONS = ['2.1', '2.2', '2.3', '2.3.1', '2.4', '2.5', '2.5.1', '2.6', '2.7', '2.8', '2.8.1', '2.8.2']
 MODULES = ['Hl7.Props.C01'] + ['Hl7.Gen.ObV' + v.replace('.', '_') for v in VERSIONS]
-THEOREMS = ['Hl7.C01.C01_level_roundtrip', 'Hl7.C01.C01_text_roundtrip', 'Hl7.Slots.slots_roundtrip', 'Hl7.Py.join_splitOn',
+THEOREMS = ['Hl7.C01.C01_cascade', 'Hl7.C01.C01_segment_body', 'Hl7.Casc.canonB_sound', 'Hl7.C01.C01_level_roundtrip', 'Hl7.C01.C01_text_roundtrip', 'Hl7.Slots.slots_roundtrip', 'Hl7.Py.join_splitOn',
             'Hl7.Py.splitOn_join', 'Hl7.C01.nm_inj'] + ['Hl7.Gen.ObV%s.segWF' % v.replace('.', '_') for v in VERSIONS]
 DEF = '|^&~\\'
 
@@ -65,13 +65,32 @@ def run(tier, seed):
                 key = 'T:%s:%s' % (v, name)        # table-shape findings D1/D2/D3: known exactly per (version, segment)
             got = vlib.unhexs(o[3:]) if o.startswith('ok ') else o
             chk.fail(key, {'clause': 'segment-roundtrip', 'version': v, 'text': text, 'got': got}, rep)
+    # ---- the cascade of theorem C01_cascade (Hl7.Casc) against the real element tree, on the canonical segment texts
+    cjobs0 = [c for c in segs if c[4] not in ex.get(c[0], []) and c[4] != 'MSH' and len(c[1]) > 4 and c[1][3] == c[3][0]]
+    ca0 = vlib.pmap(impl.casc, [(c[0], c[1], c[3]) for c in cjobs0])
+    cm0 = vlib.run_driver(['CASC %s %d %s' % (vlib.hexs(c[3]), 400, vlib.hexs(c[1][4:])) for c in cjobs0])
+    ncanon = 0
+    a2, b2, cases2 = [], [], []
+    for c, o, m in zip(cjobs0, ca0, cm0):
+        if not m.startswith('canon '):
+            continue                      # outside the theorem's hypothesis: no claim
+        ncanon += 1
+        mp = m.split(' ')
+        leaves = sorted(x for x in (mp[2].split(';') if len(mp) > 2 and mp[2] else []) if not x.endswith('='))
+        def keyf(x):
+            return tuple(int(y) for y in x.split('=')[0].split('.'))
+        cases2.append({'version': c[0], 'text': c[1]})
+        a2.append(o)
+        b2.append(mp[1] + ' ' + ';'.join(sorted(leaves, key=keyf)))
+    chk.correspond('parse_segment(text): positional paths of the leaves and to_er7 vs the cascade Hl7.Casc.parse / enc (theorem C01_cascade)', cases2, a2, b2)
+    chk.dist['cascade'] = {'canonical_segment_texts': len(cjobs0), 'canonical_for_the_cascade': ncanon}
     # ---- fields and components (named by the tables)
     fjobs, cjobs = [], []
     for v in (VERSIONS if tier != 'quick' else rng.sample(VERSIONS, 4)):
         lib = hl7apy.load_library(v)
         g = gen.Gen(rng, version=v)
         fnames = sorted(lib.FIELDS)
-        for fn in rng.sample(fnames, 120 if tier == 'quick' else len(fnames)):
+        for fn in rng.sample(fnames, min(len(fnames), 120) if tier == 'quick' else len(fnames)):
             ref = lib.FIELDS[fn]
             if not gen.well_formed_ref(ref) or len(ref) != 6:
                 continue
